@@ -12,8 +12,16 @@ ALL_ACTIONS = ["mintquote", "settle", "notify", "pollmint", "mint", "swap", "mel
                "checkstate", "rotate", "restart"]
 
 
-def consts(profile, max_ops=16, fees=(0, 100, 1000), amts=(1, 2, 3, 5, 8, 13), max_out=30, max_mq=4, max_lq=3):
-    return {"MaxOut": max_out, "MaxMq": max_mq, "MaxLq": max_lq, "MaxOps": max_ops, "Amts": tla_set(amts),
+NOLIMITS = "0"
+
+
+def limits_set(cfgs):
+    # (maxbal, maxmint, maxmelt) encoded as one integer: TLC configuration files cannot hold records
+    return "{" + ", ".join(str(b * 10000 + m * 100 + l) for (b, m, l) in cfgs) + "}"
+
+
+def consts(profile, max_ops=16, fees=(0, 100, 1000), amts=(1, 2, 3, 5, 8, 13), max_out=30, max_mq=4, max_lq=3, limits=None, mpp=(False,)):
+    return {"Limits": limits_set(limits) if limits else "{%s}" % NOLIMITS, "Mpp": tla_set(list(mpp)), "MaxOut": max_out, "MaxMq": max_mq, "MaxLq": max_lq, "MaxOps": max_ops, "Amts": tla_set(amts),
             "Fees": tla_set(fees), "Sim": "TRUE", "Profile": tla_set(profile)}
 
 
@@ -55,21 +63,21 @@ def evaluate(prop, histories, trace, res, d, extra_samples=None):
 
 def check(prop, profile=None, num=None, max_ops=16, fees=(0, 100, 1000), probe="all", policy="pct1", gen_overrides=None,
           extra_histories=None, level="model_checking", rule=None, assumptions=None, mpp=False, collect=False,
-          given=None, extra_cov=None, malformed=0, http=False):
+          given=None, extra_cov=None, malformed=0, http=False, limits=None, mpp_set=(False,)):
     t0 = time.time()
     d = rundir("%s_%s" % (prop, tier()))
     sd = spec_copy(d)
     profile = profile or ALL_ACTIONS
     if num is None:
         num = 150 if tier() == "quick" else 3000
-    c = consts(profile, max_ops=max_ops, fees=fees)
+    c = consts(profile, max_ops=max_ops, fees=fees, limits=limits, mpp=mpp_set)
     if gen_overrides:
         c.update(gen_overrides)
     if given is not None:
         histories, gen_dt = given, 0.0
     else:
         hs, gen_dt = gen_histories(sd, c, num, max_ops + 3, seed())
-        histories = to_harness_histories(hs, defaults={"probe": probe, "policy": policy, "mpp": mpp, "malformed": malformed, "http": http})
+        histories = to_harness_histories(hs, defaults={"probe": probe, "policy": policy, "malformed": malformed, "http": http})
     if extra_histories:
         base = len(histories) + 1
         for k, h in enumerate(extra_histories):
